@@ -6,6 +6,11 @@ import collections
 from . import core
 
 
+class Prune(Exception):
+    """Raised by Machine.step when a transition should simply not be followed (e.g. a request that
+    had to be refused was accepted: the model cannot follow, other properties judge that)."""
+
+
 class Machine:
     """Subclass contract:
     initial()                 -> list of (name, make() -> (impl_state, model_state))
@@ -91,6 +96,9 @@ def explore(machine, acc, depth=None, max_states=200000, tag="", wit_extra=None,
                 acc.n["transitions"] += 1
                 machine.observe(impl, model, nh)
                 acc.n["traces"] += 1
+            except Prune:
+                acc.outcomes[f"{tag}pruned"] += 1
+                continue
             except core.Violation as v:
                 acc.n["transitions"] += 1
                 acc.violation(v.clause, v.sig, wit, f"{tag}{name} + {[machine.describe(o) for o in nh]}: {v.detail}")
